@@ -1,2 +1,82 @@
-(* placeholder while the proofs are being written *)
-From V Require Import C19.Model.
+(* C19 — Behaviour is independent of the absolute value of the microsecond counter.
+   Property theorems only: each is closed by `exact` of a lemma proved in C19/Proofs.v or C19/Shift.v.
+
+   What is PROVED here: (a) uptime.c (usec / msec / sec) for arbitrary poll sequences and arbitrary cycle
+   counts; (b) shift invariance of the shutter start/stop stamp logic (model of C08, code after
+   docs/fixes/C08_rs_wrap.diff).  The other stamp-carrying modules (inputs, countdown, devconn timing,
+   cfg mode) are covered by the trace comparison of corr/c19.py only. *)
+From Coq Require Import List ZArith Bool.
+Import ListNotations.
+From V Require Import Base.U32 Gen.UptimeConsts C08.Model C08.Proofs C19.Model C19.Proofs C19.Shift.
+Local Open Scope Z_scope.
+
+(* (a) uptime_usec: for ANY sequence of polls (no condition on the time between polls), from any state with
+   32-bit fields, the returned 64-bit values never decrease — and so do milliseconds and, while the uptime is
+   below 2^32 s (136 years), the 32-bit seconds.  The only limit is the 32-bit cycle counter itself
+   (2^32 wrap-arounds = 584 000 years); the 64-bit expression cycles * 0xFFFFFFFF + time cannot wrap at all. *)
+Theorem C19_uptime_monotone : forall ts boot u, wf u ->
+  ucycles u + Z.of_nat (length ts) < 4294967296 ->
+  let vs := usec_of u :: polls boot u ts in
+  nondecreasing vs /\ nondecreasing (map to_msec vs) /\
+  (List.last vs 0 / UPTIME_MS_DIV / UPTIME_S_DIV < 4294967296 -> nondecreasing (map to_sec vs)).
+Proof. exact C19_uptime_monotone_thm. Qed.
+Print Assumptions C19_uptime_monotone.
+
+Theorem C19_no_64bit_wrap : forall c t, 0 <= c < 4294967296 -> 0 <= t < 4294967296 ->
+  0 <= c * UPTIME_MULT + t < 18446744073709551616.
+Proof. exact (fun c t => no_u64_wrap c t consts_ok). Qed.
+Print Assumptions C19_no_64bit_wrap.
+
+(* accuracy: when every poll comes less than one counter period (2^32 us) after the previous one, the uptime
+   advances by the true elapsed time minus (2^32 - UPTIME_MULT) = 1 us per wrap-around *)
+Theorem C19_uptime_accurate : forall ts boot u p, wf u ->
+  ucycles u + Z.of_nat (length ts) < 4294967296 ->
+  ulast u = u32 (boot + p) -> gaps_ok p ts ->
+  let u' := final boot u ts in
+  usec_of u' = usec_of u + (last_time p ts - p) - (4294967296 - UPTIME_MULT) * (ucycles u' - ucycles u) /\
+  0 <= ucycles u' - ucycles u <= Z.of_nat (length ts).
+Proof. exact C19_uptime_accurate_thm. Qed.
+Print Assumptions C19_uptime_accurate.
+
+(* uptime_msec / uptime_sec are the same poll followed by the divisions of to_msec / to_sec *)
+Theorem C19_units : forall u time,
+  msec_at u time = (fst (usec_at u time), to_msec (snd (usec_at u time))) /\
+  sec_at u time = (fst (usec_at u time), to_sec (snd (usec_at u time))).
+Proof. exact (fun u time => conj (msec_at_spec u time) (sec_at_spec u time)). Qed.
+Print Assumptions C19_units.
+
+(* (b) shutter stamps: same events, two boot values => same outputs at the same true times *)
+Theorem C19_shutter_shift_invariance : forall bootA bootB n t0 evs,
+  no_zero (run bootA n t0 evs) -> no_zero (run bootB n t0 evs) ->
+  run bootB n t0 evs = run bootA n t0 evs.
+Proof. exact C19_shutter_shift_invariance_thm. Qed.
+Print Assumptions C19_shutter_shift_invariance.
+
+(* the unchanged code (ordering comparison t >= stop_time) is not shift invariant *)
+Theorem C19_old_code_not_shift_invariant :
+  no_zero (run_og true 1 1 0 witness_evs) /\ no_zero (run_og true witness_boot 1 0 witness_evs) /\
+  run_og true 1 1 0 witness_evs <> run_og true witness_boot 1 0 witness_evs.
+Proof. exact C19_old_code_not_shift_invariant_thm. Qed.
+Print Assumptions C19_old_code_not_shift_invariant.
+
+(* non-vacuity and boundary examples: polls straddling 2^32 us, 2^32 ms (cycles = 1000) and a gap of more than
+   one period (still monotone, no longer accurate); a plausible regression that truncates before dividing *)
+Example C19_nonvacuous :
+  let u := mkUt 999 4294966000 in
+  let vs := polls 4294967000 u [0; 500; 30000500] in
+  wf u /\ vs = [4294967294705; 4294967295204; 4294997295204] /\
+  map to_msec vs = [4294967294; 4294967295; 4294997295] /\     (* crosses 2^32 ms *)
+  map to_sec vs = [4294967; 4294967; 4294997] /\
+  gaps_ok (-1000) [0; 500; 30000500] /\
+  polls 0 (mkUt 0 100) [200; 200 + 3 * 4294967296] = [200; 200].  (* three periods missed: monotone, not accurate *)
+Proof. vm_compute. repeat split; try reflexivity; try discriminate. Qed.
+Print Assumptions C19_nonvacuous.
+
+Example C19_trunc_before_div_not_monotone :
+  let bad v := u32 (v / 1000) / 1000 in
+  let u := mkUt 1000 0 in
+  let vs := polls 0 u [999; 1000] in
+  vs = [4294967295999; 4294967296000] /\ bad 4294967295999 = 4294967 /\ bad 4294967296000 = 0 /\
+  to_sec 4294967295999 = 4294967 /\ to_sec 4294967296000 = 4294967.
+Proof. exact trunc_before_div_not_monotone. Qed.
+Print Assumptions C19_trunc_before_div_not_monotone.
